@@ -293,7 +293,7 @@ pub fn run(rep: &mut Report, tier: &str) {
                     (Kind::InsertText, 4),
                     (Kind::Sort, 3),
                 ],
-                stale_pct: 0,
+                stale_pct: 3,
                 hostile_pct: 20,
                 primary_pct: if second.is_some() { 60 } else { 100 },
             };
@@ -307,6 +307,10 @@ pub fn run(rep: &mut Report, tier: &str) {
                     break;
                 };
                 let text = w.describe(&op);
+                let src_home = match &op {
+                    Op::Copy { src, .. } | Op::CopyAt { src, .. } | Op::Move { src, .. } | Op::MoveAt { src, .. } => w.home(&w.elems[*src]),
+                    _ => None,
+                };
                 let out = w.exec(&op);
                 w.refresh();
                 w.log.push(format!("{step:3} {text} -> {}", out.short()));
@@ -322,6 +326,18 @@ pub fn run(rep: &mut Report, tier: &str) {
                 if out.is_ok() && conforming {
                     for (mi, n) in w.trees.iter().enumerate().flat_map(|(mi, t)| t.nodes.iter().map(move |n| (mi, n))) {
                         let version = if mi == 0 { version } else { second.as_ref().map_or(version, |s| s.1) };
+                        // an element whose type is identifiable in this version has its SHORT-NAME
+                        let et = n.elem.element_type();
+                        if et.is_named_in_version(version) && n.elem.get_sub_element_at(0).is_none_or(|c| c.element_name() != ElementName::ShortName) && n.elem.element_name() != ElementName::Autosar {
+                            conforming = false;
+                            let cross = match &op {
+                                Op::Copy { p, src } | Op::CopyAt { p, src, .. } | Op::Move { p, src } | Op::MoveAt { p, src, .. } => src_home.is_some() && src_home != w.home(&w.elems[*p]) && { let _ = src; true },
+                                _ => false,
+                            };
+                            let log = w.log.clone();
+                            viol(sub, "built/identifiable-without-short-name", &format!("{}:after={:?}", if cross { "copied-from-another-version" } else { "same-version" }, op.kind()), format!("{} has no SHORT-NAME although its type is identifiable in {version:?}", n.elem.xml_path()), &log, case, seed);
+                            break;
+                        }
                         if let Err((class, why)) = children_conform(&n.elem, version) {
                             if class == "not-in-version" {
                                 continue;
